@@ -126,6 +126,19 @@ CHECKS["C14"] = dict(
          "compact/silent (DESIGN.md section 7 #12) is not yet exercised by this check.",
     technique="TLA+ source semantics without a tracing parameter; trace validation of runs under all 9 tracing settings")
 
+CHECKS["C12"] = dict(
+    category="model_checking",
+    text="Obs_Schema.tla relates, per (type, data) event, three independent statements - CIP-57 conformance to the PUBLISHED schema "
+         "(as found in the blueprint, $refs followed), Aiken.tla's FromData (what `expect _: T = d` means) and the shape the type "
+         "prescribes for its schema - with two observations of the real code: Parameter::validate and the compiled expect. 26 types "
+         "(ADTs, generic instantiations, records, Option, lists, tuples, pairs, maps, Bool, Void, Data, nested, recursive) x all values "
+         "of a finite universe and random deeper values, serialised, plus every single-node near miss of them and random data. "
+         "The event is accepted iff all five coincide.",
+    design_ref="DESIGN.md section 6 C12",
+    note="The data universe is produced by python (input generation only; the verdict is TLC's). Definite vs indefinite CBOR forms of "
+         "the same data are not distinguished. `@tag` / `@list` decorated types are not in the catalogue yet.",
+    technique="TLA+ statement of CIP-57 conformance and of the type's Data conversion; trace validation of validate / expect observations")
+
 NOT_BUILT = "not built yet (machinery under construction, see DESIGN.md section 10)"
 
 
